@@ -441,7 +441,7 @@ func (i *interpreter) alloc(n int) {
 // indexIn checks idx against [0,n) (Go semantics) and returns a concrete index.
 func (i *interpreter) indexIn(idx value, tidx types.Type, n int) int {
 	if t, ok := idx.(*Term); ok {
-		inb := i.tb.Cmp(opUlt, t, i.tb.Const(t.w, uint64(n)))
+		inb := i.boundsTerm(t, n)
 		if !i.truth(fromTerm(types.Typ[types.Bool], inb)) {
 			panic(targetPanic{i.runtimeError("runtime error: index out of range (symbolic index)")})
 		}
@@ -468,7 +468,7 @@ func (i *interpreter) indexRead(elems []value, idx value, tidx, telem types.Type
 		return elems[i.indexIn(idx, tidx, len(elems))]
 	}
 	n := len(elems)
-	inb := i.tb.Cmp(opUlt, t, i.tb.Const(t.w, uint64(n)))
+	inb := i.boundsTerm(t, n)
 	if !i.truth(fromTerm(types.Typ[types.Bool], inb)) {
 		panic(targetPanic{i.runtimeError("runtime error: index out of range (symbolic index)")})
 	}
@@ -506,7 +506,7 @@ func sliceOp(i *interpreter, instr *ssa.Slice, x, lo, hi, max value) value {
 			return def
 		}
 		if t, ok := v.(*Term); ok {
-			inb := i.tb.Cmp(opUle, t, i.tb.Const(t.w, uint64(Cap)))
+			inb := i.boundsTerm(t, Cap+1)
 			if !i.truth(fromTerm(types.Typ[types.Bool], inb)) {
 				panic(targetPanic{i.runtimeError("runtime error: slice bounds out of range (symbolic)")})
 			}
